@@ -25,7 +25,7 @@ from ..boolx import BoolEval, Unknown, show, valuations
 from ..model import AnalysisError
 from ..nodes import DESER_BASE
 from ..pathcond import HANDLER, complements, parents_of, path_condition
-from ..util import norm, short
+from ..util import dotted, norm, short
 from .common_children import _bindings, derived_from
 
 ATOMS = {
@@ -194,6 +194,20 @@ def object_protocol_rule(ctx, rule: str, clauses):
             for h, halves in per_handler.items():
                 ctx.check(halves == {"messages", "children"}, rule, f"{cls.name}:aggregate:halves@{norm(parents[h].body[-1])[:40]}", h.body[0],
                           f"the handler keeps only {sorted(halves)} of the aggregate field's error (messages and children are both part of it)", m, h, detail="messages + children")
+        if "attribution" in clauses:
+            # the declared keys are those of the normal fields only (aggregate fields have no key of their own)
+            from .c11 import bind_args, init_params
+            built = [(fi_, c_) for fi_ in model.functions.values() if fi_.module.name == "apischema.deserialization" for c_ in ast.walk(fi_.node)
+                     if isinstance(c_, ast.Call) and (dotted(c_.func) or "").split(".")[-1] == cls.name]
+            for fi_, c_ in built:
+                arg = bind_args(init_params(model, cls), c_).get("all_aliases")
+                src = arg
+                if isinstance(arg, ast.Name):
+                    src = next((a_.value for a_ in ast.walk(fi_.node) if isinstance(a_, ast.Assign) and norm(a_.targets[0]) == arg.id), arg)
+                ok_ = isinstance(src, (ast.SetComp, ast.GeneratorExp, ast.ListComp)) or (isinstance(src, ast.Call) and src.args and isinstance(src.args[0], (ast.GeneratorExp, ast.ListComp, ast.SetComp)))
+                comp = src if isinstance(src, (ast.SetComp, ast.GeneratorExp, ast.ListComp)) else (src.args[0] if ok_ else None)
+                ok_ = comp is not None and norm(comp.generators[0].iter) == "normal_fields" and norm(comp.elt).endswith(".alias")
+                ctx.check(ok_, rule, f"{cls.name}:attribution:all_aliases", c_, f"{cls.name}.all_aliases is built from `{short(src, 60)}`: it must hold the (aliased) keys of the normal fields only; with the aggregate fields' own aliases a key named like a flattened / properties field is neither validated nor reported as unexpected", fi_, c_, detail="{field.alias for field in normal_fields}")
         if "attribution" in clauses and has_addprops:
             # which keys of the datum feed each aggregate field
             def arg_comp(call):
